@@ -12,20 +12,27 @@
 (* quality (plat) and a checksum file of some quality (sums).              *)
 (* exe = 0 means "the executable is byte-identical to what it was", any    *)
 (* other value is the version whose asset was installed.                   *)
+(*                                                                         *)
+(* `crs-toolchain version' (cmd/version.go, outside CI) takes the first    *)
+(* two steps of the same machine - List, Select - and then only REPORTS the *)
+(* release it found; it requests no asset, never touches the executable    *)
+(* and ends with status 0 whatever happened.                               *)
 (***************************************************************************)
 EXTENDS Naturals, Sequences, FiniteSets, TLC
 
 CONSTANTS NoVerify,     \* TRUE: known deviation - the installing step does not verify
           Catalogues,   \* the catalogues to explore (set of sequences of releases)
           Runnings,     \* versions of the running executable (0: development build)
-          Faults        \* "none" and the requests that may fail
+          Faults,       \* "none" and the requests that may fail
+          Cmds          \* the commands to explore: "self-update", "version"
 
 VARIABLES Catalogue,   \* the scenario, chosen initially: sequence of releases,
           Running,     \*   version of the running executable,
           Fault,       \*   the request that fails ("none": no fault)
+          Cmd,         \*   the command
           pc, exe, sel, out
-scenario == <<Catalogue, Running, Fault>>
-vars == <<Catalogue, Running, Fault, pc, exe, sel, out>>
+scenario == <<Catalogue, Running, Fault, Cmd>>
+vars == <<Catalogue, Running, Fault, Cmd, pc, exe, sel, out>>
 
 Rel(ver, draft, pre, plat, sums) == [ver |-> ver, draft |-> draft, pre |-> pre, plat |-> plat, sums |-> sums]
 \* plat: "good" | "corrupt" (not an archive) | "badmember" (archive without the executable)
@@ -39,7 +46,7 @@ Candidates   == { i \in 1..Len(Catalogue) : Usable(Catalogue[i]) /\ Catalogue[i]
 Unvalidated  == { i \in 1..Len(Catalogue) : Usable(Catalogue[i]) /\ Catalogue[i].sums = "missing" }
 Highest(S)   == CHOOSE i \in S : \A j \in S : Catalogue[j].ver <= Catalogue[i].ver
 
-Init == /\ Catalogue \in Catalogues /\ Running \in Runnings /\ Fault \in Faults
+Init == /\ Catalogue \in Catalogues /\ Running \in Runnings /\ Fault \in Faults /\ Cmd \in Cmds
         /\ pc = "start" /\ exe = 0 /\ sel = 0 /\ out = ""
 
 Fail(why) == pc' = "done" /\ out' = "fail:" \o why /\ UNCHANGED <<exe, sel>>
@@ -56,7 +63,11 @@ Select == /\ pc = "listed"
              \/ /\ Candidates = {} /\ Fail("no-release")
              \/ /\ Unvalidated # {} /\ Fail("validation-file-missing")
 
-Compare == /\ pc = "selected"
+\* version: the release found is reported, whether or not it is newer
+Report == /\ pc = "selected" /\ Cmd = "version"
+          /\ pc' = "done" /\ out' = "latest" /\ UNCHANGED <<exe, sel>>
+
+Compare == /\ pc = "selected" /\ Cmd = "self-update"
            /\ IF Catalogue[sel].ver <= Running
               THEN pc' = "done" /\ out' = "no-update" /\ UNCHANGED <<exe, sel>>
               ELSE pc' = "fetch" /\ UNCHANGED <<exe, sel, out>>
@@ -79,7 +90,7 @@ Replace == /\ pc = "replace"
               THEN exe' = Catalogue[sel].ver /\ pc' = "done" /\ out' = "updated" /\ UNCHANGED sel
               ELSE Fail("unpack")
 
-Next == (List \/ Select \/ Compare \/ FetchAsset \/ FetchSums \/ Verify \/ Replace) /\ UNCHANGED scenario
+Next == (List \/ Select \/ Report \/ Compare \/ FetchAsset \/ FetchSums \/ Verify \/ Replace) /\ UNCHANGED scenario
 Spec == Init /\ [][Next]_vars
 
 (***************************************************************************)
@@ -90,6 +101,8 @@ Integrity == exe # 0 =>
     /\ \E i \in 1..Len(Catalogue) :
          /\ Catalogue[i].ver = exe /\ Usable(Catalogue[i])
          /\ Catalogue[i].plat \in {"good", "archfirst"} /\ Catalogue[i].sums = "match"
+\* C15 for `version': it never gets as far as fetching anything, the executable stays as it is
+VersionInert == Cmd = "version" => (exe = 0 /\ pc \in {"start", "listed", "selected", "done"})
 Reported  == (pc = "done" /\ exe = 0) => out # "updated"
 OnlyOnce  == [][exe # 0 => exe' = exe]_vars
 =============================================================================
